@@ -1,6 +1,7 @@
 package checks
 
 import (
+	"go/ast"
 	"fmt"
 	"go/token"
 	"go/types"
@@ -158,7 +159,7 @@ func tableElem(v ssa.Value, t *tables.Tables, depth int) (string, bool) {
 	case *ssa.Parameter:
 		// a table handed to a look-up helper: every call site of the helper passes one of the tables
 		fn := x.Parent()
-		if fn == nil || fn.Pkg == nil || depth > 4 {
+		if fn == nil || fn.Pkg == nil || depth > 7 {
 			return "", false
 		}
 		idx := -1
@@ -292,6 +293,23 @@ func nameComparisonRuleIn(p *core.Program, r *core.Result, fn *ssa.Function, env
 	n := 0
 	for _, b := range fn.Blocks {
 		for _, ins := range b.Instrs {
+			// a look-up in a table index compares the key with every name of the table
+			if lk, isLk := ins.(*ssa.Lookup); isLk {
+				if tn, _, ok := tableIndexOf(p, t, lk.X); ok {
+					n++
+					cf, nf := normFormEnv(lk.Index, env, 0)
+					expr := "look up " + lk.Index.Name() + " in the index of " + tn
+					switch {
+					case cf != "U":
+						r.Fail(rule, core.QualName(fn), expr, p.Pos(lk.Pos()), fmt.Sprintf("the key is not case-folded to match (strings.ToUpper needed, found %q): letter case changes the outcome", cf))
+					case needNul && !nf:
+						r.Fail(rule, core.QualName(fn), expr, p.Pos(lk.Pos()), "the key is not NUL-stripped (strings.ReplaceAll(x, \"\\x00\", \"\")): a NUL byte inside the name changes the outcome")
+					default:
+						r.OK(rule, core.QualName(fn), expr, p.Pos(lk.Pos()), "case-folded"+map[bool]string{true: " and NUL-stripped", false: ""}[nf])
+					}
+				}
+				continue
+			}
 			bo, ok := ins.(*ssa.BinOp)
 			if !ok || (bo.Op != token.EQL && bo.Op != token.NEQ) {
 				continue
@@ -480,6 +498,15 @@ func fullScanRuleIn(p *core.Program, r *core.Result, fn *ssa.Function, t *tables
 	n := 0
 	for _, b := range fn.Blocks {
 		for _, ins := range b.Instrs {
+			// a look-up in an index built from the table stands for the scan of that table
+			if lk, isLk := ins.(*ssa.Lookup); isLk {
+				if tn, builder, ok := tableIndexOf(p, t, lk.X); ok {
+					n++
+					r.OK(rule, core.QualName(fn), "look-up in the index of "+tn, p.Pos(lk.Pos()), "index built by "+builder.Name())
+					indexBuilderRule(p, r, builder, t, rule, tn)
+				}
+				continue
+			}
 			ia, ok := ins.(*ssa.IndexAddr)
 			if !ok {
 				continue
@@ -502,21 +529,29 @@ func fullScanRuleIn(p *core.Program, r *core.Result, fn *ssa.Function, t *tables
 			} else {
 				ph, _ = idx.(*ssa.Phi)
 			}
-			if ph == nil || len(ph.Edges) != 2 {
+			if ph == nil || len(ph.Edges) < 2 {
 				r.Fail(rule, core.QualName(fn), expr, p.Pos(ia.Pos()), "table is indexed by something other than a simple loop counter (undecided whether every entry is visited)")
 				continue
 			}
-			start, stepOK := int64(-99), false
+			// one start constant; every other edge (several `continue`s give several) is counter + 1
+			start, stepOK, nStart := int64(-99), true, 0
 			for _, e := range ph.Edges {
 				if k, ok := ssax.ConstInt(e); ok {
 					start = k
+					nStart++
 					continue
 				}
-				if bo, ok := e.(*ssa.BinOp); ok && bo.Op == token.ADD && bo.X == ssa.Value(ph) {
-					if k, ok := ssax.ConstInt(bo.Y); ok && k == 1 {
-						stepOK = true
-					}
+				bo, ok := e.(*ssa.BinOp)
+				if !ok || bo.Op != token.ADD || bo.X != ssa.Value(ph) {
+					stepOK = false
+					continue
 				}
+				if k, ok := ssax.ConstInt(bo.Y); !ok || k != 1 {
+					stepOK = false
+				}
+			}
+			if nStart != 1 {
+				stepOK = false
 			}
 			wantStart := int64(0)
 			if pre {
@@ -749,4 +784,77 @@ func scanExitJustified(facts []ssax.Fact, isEntry func(ssa.Value) bool, sorted f
 		}
 	}
 	return false
+}
+
+// ---- name tables reached through an index (a map built once from the table)
+
+// tableIndexOf: v is (a load of) a package-level map whose initialiser is
+// `builder(table)` with table one of the three name tables; returns the table's name
+// and the builder.
+func tableIndexOf(p *core.Program, t *tables.Tables, v ssa.Value) (string, *ssa.Function, bool) {
+	ld, ok := v.(*ssa.UnOp)
+	if !ok || ld.Op != token.MUL {
+		return "", nil, false
+	}
+	g, ok := ld.X.(*ssa.Global)
+	if !ok {
+		return "", nil, false
+	}
+	mt, ok := g.Type().(*types.Pointer).Elem().Underlying().(*types.Map)
+	if !ok {
+		return "", nil, false
+	}
+	if kb, ok := mt.Key().Underlying().(*types.Basic); !ok || kb.Kind() != types.String {
+		return "", nil, false
+	}
+	init := tables.PackageVars(p)[g.Name()]
+	call, ok := init.(*ast.CallExpr)
+	if !ok || len(call.Args) != 1 {
+		return "", nil, false
+	}
+	fid, ok := call.Fun.(*ast.Ident)
+	if !ok {
+		return "", nil, false
+	}
+	fobj, ok := p.Info.Uses[fid].(*types.Func)
+	if !ok {
+		return "", nil, false
+	}
+	builder := p.SSA.FuncValue(fobj)
+	aid, ok := call.Args[0].(*ast.Ident)
+	if !ok || builder == nil {
+		return "", nil, false
+	}
+	if aid.Name != t.BlackTagsVar && aid.Name != t.BlacksVar && aid.Name != t.BlackEventsVar {
+		return "", nil, false
+	}
+	return aid.Name, builder, true
+}
+
+// indexBuilderRule: the builder of a table index visits every entry of its table
+// parameter (fullScanRule on its loop) and files each entry under its own name.
+func indexBuilderRule(p *core.Program, r *core.Result, builder *ssa.Function, t *tables.Tables, rule, tn string) {
+	n := fullScanRuleIn(p, r, builder, t, rule)
+	if n == 0 {
+		r.Fail(rule, core.QualName(builder), "index of "+tn+": scan of the table", p.Pos(builder.Pos()), "the index builder does not scan its table with a simple counting loop (undecided whether every name is filed)")
+	}
+	keyed := false
+	for _, b := range builder.Blocks {
+		for _, ins := range b.Instrs {
+			mu, ok := ins.(*ssa.MapUpdate)
+			if !ok {
+				continue
+			}
+			if _, isElem := tableElem(mu.Key, t, 0); isElem {
+				keyed = true
+			} else {
+				r.Fail(rule, core.QualName(builder), "index of "+tn+": key "+ssax.Canon(mu.Key), p.Pos(mu.Pos()), "an index entry is filed under something other than the table entry's own name")
+			}
+		}
+	}
+	if keyed {
+		r.OK(rule, core.QualName(builder), "index of "+tn+": every entry is filed under its own name", p.Pos(builder.Pos()), "")
+	} else {
+		r.Fail(rule, core.QualName(builder), "index of "+tn+": entries filed", p.Pos(builder.Pos()), "the index builder files no table entry")
+	}
 }
